@@ -286,7 +286,7 @@ func run(ctx *core.Ctx) error {
 		return err
 	}
 	seeds := ctx.Rand("seeds")
-	per := ctx.Pick(1, 3)
+	per := ctx.Pick(1, 2)
 	nprog := 0
 	for i, prog := range progs {
 		needAES, needCrypt, needMeta := false, false, false
@@ -316,7 +316,7 @@ func run(ctx *core.Ctx) error {
 		fams = c02.Families
 	}
 	for _, fam := range fams {
-		ps, _, _, err := c02.Programs(ctx, fam, ctx.Pick(250, 1200))
+		ps, _, _, err := c02.Programs(ctx, fam, ctx.Pick(250, 800))
 		if err != nil {
 			return err
 		}
